@@ -2,6 +2,7 @@ import Lean.Data.Json
 import LarkVerif.Repeat
 import LarkVerif.Props.C06
 import LarkVerif.Indenter
+import LarkVerif.IterSubtrees
 import LarkVerif.LexModel
 import LarkVerif.LexTiling
 import LarkVerif.LexFast
@@ -325,6 +326,12 @@ def runLrFeed (j : Json) : Except String Json := do
       | Outcome.loop => ("loop", left.states)
     Json.mkObj [("status", Json.str status), ("stack", natArr after.reverse)]
   pure (Json.arr outs.toArray)
+
+/-- {"id": n, "kids": [...]} (Tree children only) -/
+partial def iterTOf (j : Json) : Except String IterProto.T := do
+  let i ← getNat j "id"
+  let ks ← (← getArr j "kids").mapM iterTOf
+  pure (IterProto.T.node i ks)
 
 open RuleSizeProto in
 /-- C03: body of a `[..]` as JSON: {"s": kept} | {"seq": [...]} | {"alt": [...]} | {"maybe": body} (a nested `[..]`, expanded as `EBNF_to_BNF.maybe` does) -/
@@ -728,6 +735,10 @@ def handle (j : Json) : Except String Json := do
       ("states", Json.arr (s.2.map fun (n, row) => Json.arr #[natJ n, Json.arr (row.map fun (i, a) => Json.arr (natJ i :: actJ a).toArray).toArray]).toArray),
       ("round", Json.bool (TableSer.deserialize s == some table)),
       ("deser_of_code", match TableSer.deserialize (etoks, estates) with | some T => tableJ T | none => Json.null)])
+  | "iter_subtrees" =>
+    -- {"tree": {"id", "kids"}}: the order in which Tree.iter_subtrees yields the nodes (Props.C16.iter_subtrees_children_first is about this function)
+    let t ← iterTOf (← j.getObjVal? "tree")
+    pure (Json.mkObj [("order", natArr ((IterProto.iterSubtrees t).map fun | .node i _ => i))])
   | "forest_visit" =>
     -- {"nodes": [id...], "kids": [[id, [child...]]...], "toks": [id...], "sv": bool, "root": id}: the event sequence of ForestVisitor.visit
     let nodes ← natListOf (← j.getObjVal? "nodes")
